@@ -28,7 +28,7 @@ class C10(vlib.Check):
     gen_items = ["fprint_fold"]
     rule = ("seeded fingerprints of the three kinds, bits over {1,2,7,64,1024,99999,100000,2^20,2^31-1,2^31,2^32} "
             "(dense and bit-string routes only up to 2^20), index sets incl. empty / full / extreme, counts up to 65535, "
-            "names and props; each of the seven routes. Non-trivial: non-empty fingerprint; distinct by (route, content).")
+            "names and props; each of the seven routes; exported vectors edited in place by their owner before the round trip proper. Non-trivial: non-empty fingerprint; distinct by (route, content).")
     trusted_base = ["RDKit bit vectors, pickle, gzip/bz2 via smart_open, SciPy CSR construction (compared on every run)"]
 
     def setup_tmp(self):
